@@ -49,9 +49,7 @@ impl FrameStore {
 
     pub fn get_by_seq(&self, seq: u64) -> Option<&Event> {
         let idx = self.index_of_seq(seq)?;
-        // The window is addressed by `seq - base_seq`, which is only the right slot when the
-        // pushed seqs are consecutive; never hand back a frame with a different seq.
-        self.frames.get(idx).filter(|event| event.seq == seq)
+        self.frames.get(idx)
     }
 
     pub fn iter(&self) -> impl Iterator<Item = &Event> {
@@ -67,7 +65,9 @@ impl FrameStore {
             return None;
         }
         let idx = usize::try_from(seq - self.base_seq).ok()?;
-        if idx >= len {
+        // The window is addressed by `seq - base_seq`, which is only the right slot when the
+        // pushed seqs are consecutive; never hand back (the position of) a frame with a different seq.
+        if self.frames.get(idx)?.seq != seq {
             return None;
         }
         Some(idx)
